@@ -19,6 +19,7 @@ import (
 	"path/filepath"
 	"strings"
 
+	"github.com/wader/fq/internal/verif/c19"
 	"github.com/wader/fq/internal/verif/core"
 	"github.com/wader/fq/internal/verif/fqrun"
 	"github.com/wader/fq/pkg/interp"
@@ -324,6 +325,8 @@ func run(r *core.Run) {
 	if only == "" || only == "corpushist" {
 		corpusHistories(r)
 		optionHistories(r)
+		// generated captures cut in two and decoded one after the other (shared with C19)
+		c19.CrossCapture(r)
 	}
 }
 
@@ -380,6 +383,9 @@ func replay(r *core.Run, raw json.RawMessage) bool {
 		Kind string `json:"kind"`
 	}
 	_ = json.Unmarshal(raw, &k)
+	if is, bad := c19.ReplayCrossCapture(raw); is {
+		return bad
+	}
 	sub := core.NewScratchRun(r)
 	switch k.Kind {
 	case "sched":
